@@ -179,7 +179,7 @@ TextCases == {[kind |-> "texts", text |-> t] : t \in TextsUpTo(MaxText)}
              \cup {[kind |-> "texts", text |-> p \o w] : w \in Words, p \in {<<>>, <<"-">>, <<"+">>, <<"-", "-">>, <<" ">>}}
 
 Mine(c) == (Len(c.bits) + c.e + 2000 + (IF c.neg THEN 1 ELSE 0)) % NShards = Shard
-Cases == CASE Part = "lattice" -> LatticeCases [] Part = "bounds" -> {c \in BoundCases : Mine(c)}
+Cases == CASE Part = "lattice" -> {c \in LatticeCases : Mine(c)} [] Part = "bounds" -> {c \in BoundCases : Mine(c)}
            [] Part = "random" -> RandomCases [] Part = "texts" -> TextCases
 
 VARIABLE case
